@@ -793,3 +793,75 @@ func (c *Ctx) EffectSites(fn *ssa.Function, direct func(ssa.Instruction) bool, d
 	})
 	return out
 }
+
+// CallsThroughHelpers lists the calls matching `match` made by fn, by its function literals, and by in-scope named functions
+// fn calls statically (helpers), followed to `depth` levels.
+func (c *Ctx) CallsThroughHelpers(fn *ssa.Function, depth int, match func(name string) bool) []ssa.CallInstruction {
+	seen := map[*ssa.Function]bool{}
+	var out []ssa.CallInstruction
+	var walk func(f *ssa.Function, d int)
+	walk = func(f *ssa.Function, d int) {
+		if f == nil || seen[f] || len(f.Blocks) == 0 {
+			return
+		}
+		seen[f] = true
+		out = append(out, c.Calls(f, true, match)...)
+		if d <= 0 {
+			return
+		}
+		EachInstr(f, true, func(in ssa.Instruction) {
+			if ci, ok := in.(ssa.CallInstruction); ok {
+				if cal := ci.Common().StaticCallee(); cal != nil && cal.Parent() == nil && c.InScope(cal) {
+					walk(cal, d-1)
+				}
+			}
+		})
+	}
+	walk(fn, depth)
+	return out
+}
+
+// PrivateHelpers returns the in-scope named functions that fn calls statically and that no other function calls (the shape an
+// "extract method" refactoring produces), followed to `depth` levels, fn itself first.
+func (c *Ctx) PrivateHelpers(fn *ssa.Function, depth int) []*ssa.Function {
+	if c.callerCount == nil {
+		c.callerCount = map[*ssa.Function]map[*ssa.Function]bool{}
+		for _, g := range c.ScopeFuncs() {
+			EachInstr(g, false, func(in ssa.Instruction) {
+				if ci, ok := in.(ssa.CallInstruction); ok {
+					if cal := ci.Common().StaticCallee(); cal != nil {
+						if c.callerCount[cal] == nil {
+							c.callerCount[cal] = map[*ssa.Function]bool{}
+						}
+						c.callerCount[cal][TopLevel(g)] = true
+					}
+				}
+			})
+		}
+	}
+	out := []*ssa.Function{fn}
+	seen := map[*ssa.Function]bool{fn: true}
+	frontier := []*ssa.Function{fn}
+	for d := 0; d < depth; d++ {
+		var next []*ssa.Function
+		for _, f := range frontier {
+			for _, g := range append([]*ssa.Function{f}, c15Lits(f)...) {
+				EachInstr(g, false, func(in ssa.Instruction) {
+					if ci, ok := in.(ssa.CallInstruction); ok {
+						cal := ci.Common().StaticCallee()
+						if cal == nil || cal.Parent() != nil || seen[cal] || !c.InScope(cal) || len(cal.Blocks) == 0 {
+							return
+						}
+						if len(c.callerCount[cal]) == 1 {
+							seen[cal] = true
+							out = append(out, cal)
+							next = append(next, cal)
+						}
+					}
+				})
+			}
+		}
+		frontier = next
+	}
+	return out
+}
